@@ -1,6 +1,11 @@
 """C08 — barriers release nobody early and everybody once the last waiter arrives.
 Ties: T1 (token skeletons of the barrier / wait-list / futex functions), T3 (vsched traces of sc_barrier validated
-against Model.Barrier and Model.XBarrier), property monitors in the scenario (per-round arrival counters)."""
+against Model.Barrier — including every load / store of the wait-list's futex generation word — and Model.XBarrier),
+property monitors in the scenario (per-round arrival counters) + deadlock detection.
+Scenario dimensions: barrier size (1..6; 130..140 in the thorough tier and in the failing-input search), surplus
+callers, rounds, ULT / external-thread waiters, tasklet callers at random arrival positions, fast re-entry,
+ABT_barrier_reinit by the main ULT after the join or by the first caller that returns from the last round while the
+slower waiters are still leaving."""
 from vlib import common as C
 from vlib import t1, t3, t3_sync, vs
 
@@ -9,9 +14,11 @@ ASSUMPTIONS = [
     "plain stores inside a critical section (counter++, counter = 0, num_waiters) are attributed to the preceding hook point of the same thread; the controlled scheduler has no schedule point between a lock release and the plain statements that follow it",
     "the wait-list sub-protocol (BLOCKED/READY stores, futex sleep/wake, ULT suspension and resume) is Model.WaitList's (lead); here a waiter is 'woken' at the broadcaster's dequeue event (E 52) and the monitors + deadlock detection check that it really returns",
     "ABT_xstream_barrier: pthread_barrier_wait(count) is TRUSTED (POSIX semantics; under T3 it is the controlled scheduler's virtual barrier); only the num_waiters > 1 guard of stream_barrier.c is modelled; the sense-reversal variant is compiled out in this build and not claimed",
-    "ABT_barrier_reinit is called as documented (nobody inside the barrier: counter = 0); reinit/free concurrent with waiters is undefined by the API and not explored",
+    "ABT_barrier_reinit is called as documented (nobody inside the barrier: counter = 0, the last arrival has left its critical section) — either after every caller was joined or by a caller that has just returned from the last round while slower waiters of that round are still leaving (woken, not yet returned); reinit/free while a caller is blocked or inside a critical section is undefined by the API and not explored",
+    "the futex generation word of the wait-list is modelled as a natural number: wrap-around of the 32-bit word (2^32 broadcasts while one waiter sleeps) is not modelled; FUTEX_WAIT/FUTEX_WAKE themselves are the controlled scheduler's virtual futex (TRUSTED, Linux semantics: wait returns at once if the word differs, a wake makes sleepers runnable)",
+    "large barriers (130..140 waiters: more than one batch of any implementation that wakes in bounded chunks) are explored in the thorough tier and in the failing-input search only; the quick tier validates sizes 1..6",
     "liveness ('all of them return') in safety form: no-lost-waiter invariant + 'the last arrival's critical section empties the list' in Lean, termination of every explored schedule by the scheduler's deadlock/livelock detection; OS-thread fairness assumed",
-    "1.x API build: a tasklet calling ABT_barrier_wait is rejected with ABT_ERR_BARRIER before touching the barrier (modelled and tested); tasklets are therefore never waiters of a round",
+    "1.x API build: a tasklet calling ABT_barrier_wait is rejected with ABT_ERR_BARRIER before touching the barrier (modelled: barrier_tasklet_rejected_nochange; tested with tasklets created at random positions among the waiters, so that the rejected call happens before, between and after the real arrivals); tasklets are therefore never waiters of a round",
 ]
 
 T1_FUNCS = [("barrier.c", f) for f in [
